@@ -252,12 +252,11 @@ fn parse_duration<V: AsRef<str> + Into<String>>(
         Err(e) => return Err(TypedResponseError::invalid_value(field, value.into()).source(e)),
     };
 
-    // Check if the parsed value is a reasonable duration, to avoid a panic from `from_secs_f64`
-    if v >= 0.0 && v <= Duration::MAX.as_secs_f64() && v.is_finite() {
-        Ok(Duration::from_secs_f64(v))
-    } else {
-        Err(TypedResponseError::invalid_value(field, value.into()))
-    }
+    // Negative, non-finite and too large values are rejected here instead of panicking like
+    // `from_secs_f64` does (a manual range check against `Duration::MAX.as_secs_f64()` is not
+    // enough, that bound rounds up to 2^64 which is itself out of range)
+    Duration::try_from_secs_f64(v)
+        .map_err(|e| TypedResponseError::invalid_value(field, value.into()).source(e))
 }
 
 /// Possible playback states.
